@@ -244,6 +244,13 @@ fn eval(ctx: &mut Ctx, input: &[u8], pat: &[u8]) {
     });
 }
 
+/// long inputs: the case is recorded as "in flight" while it runs (a recursion as deep as the input would kill the process)
+fn eval_deep(ctx: &mut Ctx, hay: &[u8], needle: &[u8]) {
+    ctx.inflight("strip_trim", &Case { input: hay.to_vec(), pat: needle.to_vec() });
+    eval(ctx, hay, needle);
+    ctx.landed();
+}
+
 fn product(ctx: &mut Ctx, hays: &[Vec<u8>], needles: &[Vec<u8>]) {
     for h in hays {
         for n in needles {
@@ -364,7 +371,7 @@ fn explore(ctx: &mut Ctx) {
                 let mut v: Vec<u8> = pat.iter().copied().cycle().take(keep).collect();
                 v.extend_from_slice(b"#core#");
                 v.extend(pat.iter().copied().cycle().take(keep));
-                eval(ctx, &v, pat);
+                eval_deep(ctx, &v, pat);
             }
         }
         ctx.exhaustive_part("inputs of up to 140000 bytes: a pattern repeated up to offsets around 2^8, 2^15, 2^16 on both sides of a core, 4 patterns");
@@ -407,6 +414,10 @@ pub fn fold_case((p, r1, mid, r2, cut1, cut2): &(Vec<u8>, usize, Vec<u8>, usize,
 }
 
 fn main() {
+    kvh::on_thread(real_main);
+}
+
+fn real_main() {
     let args = kvh::parse_args("C05", "c05");
     let mut ctx = Ctx::new(args.clone(), RULE);
     if let Some(p) = &args.replay {
